@@ -473,11 +473,18 @@ def search(ctx, info, nhist, nreq):
             combos = [(f, g) for f in FAMILIES[:3] for g in GENTLE]
         else:
             combos = [(FAMILIES[j % 2], GENTLE[1]), (FAMILIES[2 + j % 2], GENTLE[0])]
-        for fam, gentle in combos:
+        for ci, (fam, gentle) in enumerate(combos):
             cfg = dict(base, **fam)
             cfg.update(gentle)
             if ctx.tier == "thorough":
                 cfg["order"] = ctx.rng.choice((2, 4))
+            ops_ = ops
+            if K == "Weyl_Psi" and ci % 2 == 0:
+                # an off-centre tetrad / extraction centre, and afterwards the quantities that read the grid's
+                # coordinates (the FiniteDifference object is shared state outside the cache)
+                cfg["center"] = [0.25, -0.125, 0.5]
+                ops_ = ops + [["get", "null_ray_exp_out"], ["get", "null_ray_exp_in"], ["get", "Weyl_Psi"]]
+            ops = ops_
             rel, n = oracle_history(ctx, cfg, ops, "dependencies of " + K, stats, info)
             found += n
             runs.append((cfg, ops, rel))
